@@ -41,3 +41,14 @@ _P["C19"] = {
     "trusted_base": ["bytes.Buffer append semantics and Go slice bounds rules as written in Model/Ofbase.v (exact-capacity buffers)"],
     "assumptions": ["decoder buffers have len == cap (a reslice beyond len panics); with spare capacity Go would read stale bytes instead"],
 }
+
+
+_P["C15"] = {
+    "explanation": "Theorems C15_* (Properties/C15.v): the model registry agrees with the spec table Spec/OvsFields.v for every registered name "
+                   "(finite sweep lifted by forallb_forall), lookup semantics, header pack/unpack inverse for all 2^32 words by algebra on N; "
+                   "correspondence: the registry dumped from the running library equals the model's entry for entry, every name x mask x case variant.",
+    "trusted_base": ["Spec/OvsFields.v as a faithful transcription of OpenFlow 1.3.5 table 12 and OVS meta-flow.h (written without access to the documents)",
+                     "Go map read semantics; strings.ToUpper modelled for ASCII names only"],
+    "assumptions": ["independence of lookup results is observed (mutate-then-look-up-again, 32 goroutines; -race in the thorough tier), not proved: the model is pure"],
+    "race": {"thorough": True},
+}
